@@ -257,6 +257,19 @@ Fixpoint all_aligned (e : env) (es : list expr) : option (option bool) :=   (* N
               end
   end.
 
+(* the command number: for the raw send_scp wrappers it is args[0], and the call of
+   connection.send_scp(length, x, y, p, *args, **kwargs) -- made after the connection has been chosen --
+   is a TypeError when args is empty or longer than the seven remaining parameters.
+   None = KeyError; Some None = that TypeError. *)
+Definition eval_cmd (e : env) (cmd : expr) : option (option value) :=
+  match cmd with
+  | EVarg _ =>
+      let n := List.length (e_varargs e) in
+      if (Nat.leb 1 n) && (Nat.leb n 7) then match eval e cmd with Some v => Some (Some v) | None => Some None end
+      else Some None
+  | _ => match eval e cmd with Some v => Some (Some v) | None => None end
+  end.
+
 Definition seq_outcome (o1 : outcome) (o2 : unit -> outcome) : outcome :=
   match o1 with
   | (ws, Some e) => (ws, Some e)
@@ -267,14 +280,17 @@ Fixpoint run_body (callf : string -> list value -> list (string * value) -> outc
          (c : ctl) (e : env) (b : body) : outcome :=
   match b with
   | BSend x y p cmd disc fields =>
-      match eval e x, eval e y, eval e p, eval e cmd, eval_fields e fields with
+      match eval e x, eval e y, eval e p, eval_cmd e cmd, eval_fields e fields with
       | Some vx, Some vy, Some vp, Some vc, Some ofs =>
           match ofs with
           | None => ([], Some TypeErr)
           | Some fs =>
               match mc_get_connection c vx vy with
               | None => ([], Some TypeErr)
-              | Some k => ([MkWire k 0 vx vy vp vc disc fs], None)
+              | Some k => match vc with
+                          | Some vcmd => ([MkWire k 0 vx vy vp vcmd disc fs], None)
+                          | None => ([], Some TypeErr)
+                          end
               end
           end
       | _, _, _, _, _ => ([], Some OtherErr)
@@ -289,14 +305,17 @@ Fixpoint run_body (callf : string -> list value -> list (string * value) -> outc
       | _, _, _ => ([], Some OtherErr)
       end
   | BBmp cab fr bd cmd disc fields =>
-      match eval e cab, eval e fr, eval e bd, eval e cmd, eval_fields e fields with
-      | Some vc, Some vf, Some vb, Some vcmd, Some ofs =>
+      match eval e cab, eval e fr, eval e bd, eval_cmd e cmd, eval_fields e fields with
+      | Some vc, Some vf, Some vb, Some ocmd, Some ofs =>
           match ofs with
           | None => ([], Some TypeErr)
           | Some fs =>
               match bmp_get_connection c vc vf vb with
               | None => ([], Some AssertErr)
-              | Some k => ([MkWire k 0 (VInt 0) (VInt 0) vb vcmd disc fs], None)
+              | Some k => match ocmd with
+                          | Some vcmd => ([MkWire k 0 (VInt 0) (VInt 0) vb vcmd disc fs], None)
+                          | None => ([], Some TypeErr)
+                          end
               end
           end
       | _, _, _, _, _ => ([], Some OtherErr)
@@ -330,7 +349,7 @@ Definition sub (arg : nat) (shift mask v : Z) : (nat * Z * Z * Z) := (arg, shift
 Definition sv_field_read : body := BCall "read_struct_field" [EOpq 1; EOpq 2; P "x"; P "y"] [].
 
 Definition mc_bodies : list (string * body) :=
-  [ ("send_scp", BNeedArgs 1 7 (BSend (P "x") (P "y") (P "p") (EVarg 0) [] []));
+  [ ("send_scp", BSend (P "x") (P "y") (P "p") (EVarg 0) [] []);
     ("discover_connections", BCall "get_p2p_routing_table" [P "x"; P "y"] []);
     ("application", BNoSend);
     ("get_software_version", BSend (P "x") (P "y") (P "processor") (K SCP_sver) [] []);
@@ -391,7 +410,7 @@ Definition bmp_send (bd : expr) (cmd : Z) (fields : list (fkind * nat * Z * expr
   BBmp (P "cabinet") (P "frame") bd (K cmd) [] fields.
 
 Definition bmp_bodies : list (string * body) :=
-  [ ("send_scp", BNeedArgs 1 7 (BBmp (P "cabinet") (P "frame") (P "board") (EVarg 0) [] []));
+  [ ("send_scp", BBmp (P "cabinet") (P "frame") (P "board") (EVarg 0) [] []);
     ("get_software_version", bmp_send (P "board") SCP_sver []);
     (* the power command always goes to board 0; the boards concerned are a bit mask in arg2 *)
     ("set_power", bmp_send (K 0) SCP_power [(FBit, 1%nat, 0, P "board")]);
@@ -439,10 +458,11 @@ Definition FUEL : nat := 6%nat.
 (* ------------------------------------------------------------------ histories: with-blocks, exceptions *)
 Inductive op : Type :=
 | OCall (m : string) (pos : list value) (kw : list (string * value)) (propagate : bool)
-      (* c.m(*pos, **kw); an exception is caught by the caller (propagate = false) or travels outward *)
-| OWith (kw : list (string * value)) (blk : list op)           (* with c(**kw): blk *)
-| OApp (pos : list value) (kw : list (string * value)) (blk : list op)   (* with c.application(*pos, **kw): blk *)
-| OUpdate (kw : list (string * value))                         (* c.update_current_context(**kw) *)
+      (* c.m(pos..., kw...); a rejection (an exception before anything is sent) travels outward when
+         propagate is set; otherwise, and whenever a command has already been sent, the caller catches it *)
+| OWith (kw : list (string * value)) (blk : list op)           (* with c(kw...): blk *)
+| OApp (pos : list value) (kw : list (string * value)) (blk : list op)   (* with c.application(pos..., kw...): blk *)
+| OUpdate (kw : list (string * value))                         (* c.update_current_context(kw...) *)
 | ORaise                                                       (* raise *)
 | OTry (blk : list op).                                        (* try: blk / except: pass *)
 
@@ -462,6 +482,7 @@ Definition run_list (f : op -> stack -> res) : list op -> stack -> res :=
         else let '(e2, s2, r2) := go l' s1 in (e1 ++ e2, s2, r2)
     end.
 
+Definition nothing_sent (o : outcome) : bool := match fst o with [] => true | _ => false end.
 Definition has_err (o : outcome) : bool := match snd o with Some _ => true | None => false end.
 
 (* Context.update on the innermost context *)
@@ -478,7 +499,7 @@ Fixpoint run_op (c : ctl) (cls : string) (o : op) (s : stack) {struct o} : res :
   match o with
   | OCall m pos kw propagate =>
       let out := call FUEL c cls m s pos kw in
-      ([EvCall m out], s, propagate && has_err out)
+      ([EvCall m out], s, propagate && has_err out && nothing_sent out)
   | OWith kw blk =>
       (* Context(kwargs).__enter__ : push;  __exit__ : (no callbacks) pop, exception not swallowed *)
       let '(ev, s2, r) := run_list (run_op c cls) blk (s ++ [mkdict kw]) in
@@ -513,3 +534,28 @@ Fixpoint run_op (c : ctl) (cls : string) (o : op) (s : stack) {struct o} : res :
   end.
 
 Definition run_ops (c : ctl) (cls : string) : list op -> stack -> res := run_list (run_op c cls).
+
+(* ------------------------------------------------------------------ printing for the harness
+   (numbers, strings, tuples and lists only, which harness/lib.py can parse) *)
+Definition flat_value (v : value) : Z * Z :=
+  match v with VInt z => (0, z) | VNone => (1, 0) | VBool b => (2, if b then 1 else 0) | VTok t => (3, t) end.
+Definition flat_err (e : option err) : Z :=
+  match e with
+  | None => 0 | Some TypeErr => 1 | Some ValueErr => 2 | Some AssertErr => 3 | Some OtherErr => 4
+  | Some FuelErr => 5
+  end.
+Definition flat_fkind (k : fkind) : Z := match k with FByte => 0 | FBit => 1 end.
+Definition flat_wire (w : wire) :=
+  (w_conn w, w_kind w, flat_value (w_x w), flat_value (w_y w), flat_value (w_p w), flat_value (w_cmd w),
+   map (fun d => match d with (i, sh, m, v) => (Z.of_nat i, sh, m, v) end) (w_disc w),
+   map (fun f => match f with (k, i, sh, v) => (flat_fkind k, Z.of_nat i, sh, flat_value v) end) (w_fields w)).
+Definition flat_outcome (o : outcome) := (map flat_wire (fst o), flat_err (snd o)).
+Definition flat_event (e : event) :=
+  match e with
+  | EvCall m o => (0, m, flat_outcome o)
+  | EvStop o => (1, "", flat_outcome o)
+  end.
+Definition flat_res (r : res) :=
+  match r with
+  | (ev, s, b) => (map flat_event ev, map (map (fun kv => (fst kv, flat_value (snd kv)))) s, b)
+  end.
